@@ -137,13 +137,17 @@ SdfFileEv(t) ==
   SdfRtVerdict([i \in DOMAIN R0 |-> [atoms |-> t.back0.mols[i].atoms, nb |-> 0]], t.wexc, t.lines, t.back)
 
 (* ---- XYZ ---------------------------------------------------------------- *)
+ExpTok(tok) == \E i \in DOMAIN tok : tok[i] \in {69, 101}
+HasExponent(L) == \E j \in 3..Len(L) : LET tk == Tokens(L[j]) IN Len(tk) >= 4 /\ (ExpTok(tk[2]) \/ ExpTok(tk[3]) \/ ExpTok(tk[4]))
 XyzRt(t) ==
   IF ~(Len(t.mols) = 1 /\ XyzAtomsOK(t.mols[1].atoms)) THEN "OOD guard" ELSE
   IF t.wexc # "" THEN "REJECT WriteRaised:" \o t.wexc ELSE
   IF ~AllPrintable(t.lines) THEN "REJECT TextBytes" ELSE
   LET rd == XyzRead(t.lines)
       m == t.mols[1]
-  IN IF ~(rd.ok /\ XyzAtomsFromInput(m.atoms, rd.atoms)) THEN "REJECT WriterContent" ELSE
+  IN \* numbers in exponent notation (1.25e+00) are XYZ too, but outside the number grammar of this module (MolFormats!ParseDec)
+     IF ~rd.ok /\ HasExponent(t.lines) THEN "OOD exponent-notation" ELSE
+     IF ~(rd.ok /\ XyzAtomsFromInput(m.atoms, rd.atoms)) THEN "REJECT WriterContent" ELSE
   IF t.back.exc # "" THEN "REJECT ReadRaised:" \o t.back.exc ELSE
   IF Len(t.back.mols) # 1 THEN "REJECT RecordCount" ELSE
   IF t.back.offgrid THEN "REJECT OnGrid" ELSE
